@@ -2029,12 +2029,26 @@ macro_rules! impl_exact_size_and_fused_iterator {
     }
 }
 
+// The compiler does not automatically derive Send and Sync for the iterators because they
+// contain raw pointers.
+//
+// The shared iterators hand out `&K` and `&V`, so they behave like shared references:
+// sending one to another thread shares the keys and values, which requires `K: Sync, V: Sync`.
 macro_rules! impl_send_and_sync_for_iterator {
     ($($t:ty),*) => {
         $(
-            // The compiler does not automatically derive Send and Sync for Iter because it contains
-            // raw pointers.
-            unsafe impl<'a, K: Send, V: Send> Send for $t {}
+            unsafe impl<'a, K: Sync, V: Sync> Send for $t {}
+            unsafe impl<'a, K: Sync, V: Sync> Sync for $t {}
+        )*
+    }
+}
+
+// The mutable iterators hand out `&K` and `&mut V`: sending one to another thread shares the
+// keys (`K: Sync`) and moves exclusive access to the values (`V: Send`).
+macro_rules! impl_send_and_sync_for_mut_iterator {
+    ($($t:ty),*) => {
+        $(
+            unsafe impl<'a, K: Sync, V: Send> Send for $t {}
             unsafe impl<'a, K: Sync, V: Sync> Sync for $t {}
         )*
     }
@@ -2083,13 +2097,16 @@ impl_exact_size_and_fused_iterator! {
 impl_send_and_sync_for_iterator! {
     MRUIter<'a, K, V>,
     LRUIter<'a, K, V>,
-    MRUIterMut<'a, K, V>,
-    LRUIterMut<'a, K, V>,
     KeysMRUIter<'a, K, V>,
     KeysLRUIter<'a, K, V>,
     ValuesMRUIter<'a, K, V>,
+    ValuesLRUIter<'a, K, V>
+}
+
+impl_send_and_sync_for_mut_iterator! {
+    MRUIterMut<'a, K, V>,
+    LRUIterMut<'a, K, V>,
     ValuesMRUIterMut<'a, K, V>,
-    ValuesLRUIter<'a, K, V>,
     ValuesLRUIterMut<'a, K, V>
 }
 
